@@ -1134,7 +1134,7 @@ func (t *tr) typeSwitch(sw *ast.TypeSwitchStmt) string {
 	return b.String()
 }
 
-const reflectDigestWant = "284aa45edc571fbb"
+const reflectDigestWant = "9bdb216178b8bc4d"
 
 type fnOut struct {
 	name  string
@@ -1176,11 +1176,23 @@ func (t *tr) function(fd *ast.FuncDecl) fnOut {
 	var b strings.Builder
 	pos := t.p.fset.Position(fd.Pos())
 	fmt.Fprintf(&b, "(* %s:%d *)\n", filepath.Base(pos.Filename), pos.Line)
-	if t.selfUsed {
+	// every func(interface{}) (interface{}, error) gets the unrolled form, whether or not it
+	// calls itself today, so that proofs do not depend on which functions happen to recurse
+	unroll := t.selfUsed
+	if t.ret == "gval" && len(params) == 1 {
+		if s0, _ := t.sortOf(sig.Params().At(0).Type()); s0 == sIface {
+			unroll = true
+		}
+	}
+	if unroll {
 		fmt.Fprintf(&b, "Definition %s_body (rec_%s : %s -> res %s) %s : res %s :=\n  let _ := O in\n  %s.\n",
 			fd.Name.Name, fd.Name.Name, "gval", t.ret, strings.Join(params, " "), t.ret, body)
-		fmt.Fprintf(&b, "Definition %s : gval -> res %s :=\n  %s_body (%s_body (%s_body (%s_body (%s_body (fun _ => Fuel))))).\n",
-			fd.Name.Name, t.ret, fd.Name.Name, fd.Name.Name, fd.Name.Name, fd.Name.Name, fd.Name.Name)
+		n := fd.Name.Name
+		fmt.Fprintf(&b, "Definition %s_0 : gval -> res %s := fun _ => Fuel.\n", n, t.ret)
+		for lvl := 1; lvl <= 5; lvl++ {
+			fmt.Fprintf(&b, "Definition %s_%d : gval -> res %s := %s_body %s_%d.\n", n, lvl, t.ret, n, n, lvl-1)
+		}
+		fmt.Fprintf(&b, "Definition %s : gval -> res %s := %s_5.\n", n, t.ret, n)
 		if len(params) != 1 {
 			t.fail(fd, "self-recursive function with %d parameters", len(params))
 		}
